@@ -322,7 +322,7 @@ func TestMiniFunctions(t *testing.T) {
 }
 
 func TestWideFunctions(t *testing.T) {
-	pbt.Rule("wide_functions", "synthesised programs that push every index past the 8 bit operand forms: up to ~300 locals (PREP_LOCALS16, GET/SET_LOCAL16, BOX_LOCAL16), up to ~300 pool constants and call sites (LOAD_VALUE16, CALL_METHOD*16, GET_CONST16), closures capturing up to ~300 variables and assigning them (GET/SET_UPVALUE8/16, long closure operands, CLOSE_UPVALUES_TO16), collection / string literals with more than 255 dynamic elements, constructors with more than 255 arguments, break / continue through finally blocks below 3 byte PREP_LOCALS16; sizes are drawn around 0..5 and the 8 bit boundary (253..258, 300); same static oracle; non-trivial = some function has a jump and a call; distinct by source")
+	pbt.Rule("wide_functions", "synthesised programs that push every index past the 8 bit operand forms: up to ~300 locals (PREP_LOCALS16, GET/SET_LOCAL16, BOX_LOCAL16), up to ~300 pool constants and call sites (LOAD_VALUE16, CALL_METHOD*16, GET_CONST16), closures capturing up to ~300 variables and assigning them (GET/SET_UPVALUE8/16, long closure operands, CLOSE_UPVALUES_TO16), collection / string literals with more than 255 dynamic elements, constructors with more than 255 arguments, recursive and forward calls (call sites patched after the callee is compiled) behind up to ~300 pool entries, break / continue through finally blocks below 3 byte PREP_LOCALS16; sizes are drawn around 0..5 and the 8 bit boundary (253..258, 300); same static oracle; non-trivial = some function has a jump and a call; distinct by source")
 	worker = sb.New("debug")
 	defer worker.Close()
 	pbt.Run(t, pbt.Prop[Case]{Name: "wide_functions", Quick: 240, Thorough: 2000,
@@ -468,7 +468,17 @@ func wideSrc(t *rapid.T) string {
 		b.WriteString(")\n")
 	}
 	if inMethod {
-		b.WriteString("c29_id(seed)\nend\nprintln c29_wide(2)\n")
+		// calls whose callee has no compiled body yet when the call site is emitted (the method itself, a method
+		// defined further down): the call-site is patched in place afterwards, with whatever index width it has
+		switch vgen.Pick(t, 4, "deferred_call") {
+		case 0:
+			b.WriteString("if seed > 100\n  println c29_wide(seed - 1)\nend\n")
+		case 1:
+			b.WriteString("return c29_wide(seed - 1) if seed > 100\n")
+		case 2:
+			b.WriteString("println c29_later(seed)\nreturn c29_later(seed + 1) if seed > 100\n")
+		}
+		b.WriteString("c29_id(seed)\nend\ndef c29_later(x: Int): Int\n  x + 1\nend\nprintln c29_wide(2)\n")
 	}
 	return b.String()
 }
